@@ -25,6 +25,8 @@ import (
 	"encoding/json"
 	"errors"
 	"fmt"
+	"io"
+	"log/slog"
 	"os"
 	"path/filepath"
 	"sort"
@@ -721,6 +723,7 @@ func (w *world) mutate(ctx context.Context, s Step) error {
 // ------------------------------------------------------------------ main
 
 func main() {
+	slog.SetDefault(slog.New(slog.NewTextHandler(io.Discard, nil)))
 	if len(os.Args) < 3 {
 		fmt.Fprintln(os.Stderr, "usage: notify <cases.ndjson> <trace.ndjson>")
 		os.Exit(2)
